@@ -4,6 +4,13 @@
 
 package fs
 
+import (
+	"fmt"
+	"os"
+	"strconv"
+	"strings"
+)
+
 // VerifUnescape exposes unescape to the verification harness.
 func VerifUnescape(s string) string {
 	return unescape(s)
@@ -17,4 +24,39 @@ func (m Mounts) VerifMountList() []MountType {
 // VerifStDevRoot exposes the unexported fields of a mount entry.
 func (mt MountType) VerifStDevRoot() (string, string) {
 	return mt.st_dev, mt.root
+}
+
+// VerifHook, when set, is consulted at every mutating file-system or mount operation
+// (after the pretender has allowed it).  A non-nil result makes the operation fail with
+// that error without being carried out.
+var VerifHook func(kind, arg string) error
+
+var verifCount int
+
+// verifPoint numbers the mutating operations 1, 2, 3...  Environment control for the
+// binaries: LAYERCAKE_VERIF_FAULT=fail:<k> fails the k-th operation, crash:<k> kills
+// the process there (exit status 137); LAYERCAKE_VERIF_LOG=<file> appends one line
+// per operation.
+func verifPoint(kind, arg string) error {
+	verifCount++
+	if name := os.Getenv("LAYERCAKE_VERIF_LOG"); len(name) > 0 {
+		if fh, err := os.OpenFile(name, os.O_WRONLY|os.O_APPEND|os.O_CREATE, 0644); err == nil {
+			fmt.Fprintf(fh, "%d %s %q\n", verifCount, kind, arg)
+			fh.Close()
+		}
+	}
+	if VerifHook != nil {
+		return VerifHook(kind, arg)
+	}
+	spec := os.Getenv("LAYERCAKE_VERIF_FAULT")
+	if strings.HasPrefix(spec, "fail:") {
+		if k, err := strconv.Atoi(spec[5:]); err == nil && k == verifCount {
+			return fmt.Errorf("injected fault at operation %d (%s %s)", k, kind, arg)
+		}
+	} else if strings.HasPrefix(spec, "crash:") {
+		if k, err := strconv.Atoi(spec[6:]); err == nil && k == verifCount {
+			os.Exit(137)
+		}
+	}
+	return nil
 }
